@@ -173,16 +173,18 @@ def _loop_kind(F, m, comp):
     return None
 
 
-def rule_b(ctx, cone=None, rid="C03.b", floor=3):
+def rule_b(ctx, cone=None, rid="C03.b", floor=1):
     F = ctx.F
     cone = cone or dispatch_cone(F)
     ctx.rule(rid, "every loop in a workspace-local function of the cone is iterator-driven over a finite source or a "
                   "CAS-retry loop leaving on the CAS's Ok result (no waiting for another thread)", floor=floor)
+    nloops = 0
     for m in cone.members:
         if not (m.local and m.body is not None) or is_user_code(m):
             continue
         ctx.fn(m)
         for comp in cfg.cycles(m):
+            nloops += 1
             k = _loop_kind(F, m, comp)
             key = "loop:%s#%d" % (keyname(m.name), len(comp))
             where = m.term(min(comp))["sp"]
@@ -191,6 +193,7 @@ def rule_b(ctx, cone=None, rid="C03.b", floor=3):
                         {"blocks": sorted(comp), "calls_in_loop": sorted({(m.term(b).get("def") or "") for b in comp if m.term(b)["k"] == "call"})})
             else:
                 ctx.ok(rid, key, "%s loop in %s (bounded own steps)" % ({"iter": "iterator-driven", "cas": "CAS-retry"}[k[0]], m.name), where)
+    ctx.ok(rid, "loops:inventory", "%d loop(s) in %d workspace-local frames of the cone were classified" % (nloops, sum(1 for m in cone.members if m.local and m.body is not None)))
 
 
 def _audited(scope):
@@ -253,41 +256,34 @@ def panic_sites(F, m):
 
 
 def _discharge_global_init(ctx, F, m=None):
-    """Option<&GlobalData>::unwrap: (1) in the dispatcher the handler is installed only after the Once-guarded
-    initialisation completed (init call dominates the installing call in every function that installs);
-    (2) every other caller of the accessor calls it after a dominating Once::call_once in the same function."""
-    h = handler(F)
-    if m is not None:
-        for (cid, k, bb) in F.callers().get(m.id, []):
-            ci = F.inst[cid]
-            if cid == h.id or ci.body is None or k != "call":
-                continue
-            dom = cfg.dominators(ci)
-            once = [b for b, t in ci.calls() if t.get("f") is not None and F.inst[t["f"]].defp == "std::sync::once::Once::call_once"]
+    """Option<&GlobalData>::unwrap in the accessor of the global registry state: (1) the dispatcher can only run after some public
+    function installed it, and in the normal form of every public function that installs it (takes its address for sigaction) the
+    Once-guarded initialisation dominates the installing call; (2) in every other public function that reaches the accessor, the
+    initialisation dominates the accessor's unwrap."""
+    from . import reg
+    from .. import inline
+    from .C04 import install_calls
+    ONCE = "std::sync::once::Once::call_once"
+    n_inst = 0
+    for fn, i in reg.public_fns(F):
+        n = reg.RN(F, i)
+        once = [b for b, t in n.calls() if t.get("f") is not None and F.inst[t["f"]].defp == ONCE]
+        dom = None
+        inst, _q = install_calls(F, n)
+        for bb, t in inst:
+            n_inst += 1
+            dom = dom or cfg.dominators(n)
             if not any(o in dom[bb] and o != bb for o in once):
-                return False, "%s calls the accessor without a dominating Once::call_once" % ci.name
-    installers = [i for i in F.inst if i.body is not None and any(k == "reify" and t == h.id for (t, k, b) in F.edges(i))]
-    if not installers:
-        return False, "no function takes the dispatcher's address"
-    callers = F.callers()
-    for ins in installers:
-        for (cid, k, bb) in callers.get(ins.id, []):
-            ci = F.inst[cid]
-            if ci.body is None:
-                continue
-            dom = cfg.dominators(ci)
-            init_blocks = []
-            for b2, t2 in ci.calls():
-                if t2.get("f") is None:
-                    continue
-                callee = F.inst[t2["f"]]
-                # an initialiser: reaches Once::call_once* (transitively, within 2 workspace frames)
-                par = F.reach([callee], stop=lambda x: not x.local and "Once::call_once" not in x.name)
-                if any("std::sync::once::Once::call_once" in F.inst[x].name for x in par):
-                    init_blocks.append(b2)
-            if not any(ib in dom[bb] and ib != bb for ib in init_blocks):
-                return False, "%s installs the dispatcher (via %s) without a dominating Once initialisation" % (ci.name, ins.name)
-    return True, "every call of %s is dominated by the Once-guarded initialisation" % ", ".join(i.name for i in installers)
+                return False, "%s installs the dispatcher without a dominating Once initialisation" % i.name
+        if m is not None and (m.id in inline.all_inlined(n)):
+            dom = dom or cfg.dominators(n)
+            for bb, t in n.calls():
+                if t.get("f") is not None and F.inst[t["f"]].defp == "core::option::Option::<T>::unwrap" and n.blocks[bb].get("from") == m.id:
+                    if not any(o in dom[bb] and o != bb for o in once):
+                        return False, "%s reaches the accessor without a dominating Once::call_once" % i.name
+    if not n_inst:
+        return False, "no public function installs the dispatcher"
+    return True, "every public function that installs the dispatcher or reads the global state runs the Once-guarded initialisation first"
 
 
 def _discharge(ctx, F, m, site):
